@@ -124,3 +124,12 @@ Theorem C09_bif_names_not_probability_headers : forall (n r : str) (k : nat),
   ident n -> bif_ctx r -> k < List.length n -> prob_hdr_at (skipn k n ++ r) = false.
 Proof. exact bif_names_not_probability_headers_l. Qed.
 Print Assumptions C09_bif_names_not_probability_headers.
+
+(* save / load: for EVERY (extension, filetype) pair, save writes the format that load with the same arguments
+   parses (or save writes nothing and load returns None); a recognised extension overrides the filetype in both *)
+Theorem C09_save_load_same_format : forall ext ft : nat,
+  save_format ext ft = load_format ext ft /\
+  (supported ext = true -> save_format ext ft = Some ext) /\
+  (supported ext = false -> save_format ext ft = if supported ft then Some ft else None).
+Proof. exact save_load_same_format_l. Qed.
+Print Assumptions C09_save_load_same_format.
